@@ -433,6 +433,8 @@ fn gen_shards(ctx: &mut Ctx) -> Result<String, String> {
 
 // ------------------------------------------------------------------ type-erasure casts (src/entry.rs)
 
+fn compact_src(src: &str) -> String { src.chars().filter(|c| !c.is_whitespace()).collect() }
+
 fn gen_casts(ctx: &mut Ctx) -> Result<String, String> {
     let file = ctx.file("src/entry.rs")?.clone();
     let src = std::fs::read_to_string(ctx.repo.join("src/entry.rs")).map_err(|e| e.to_string())?;
@@ -456,6 +458,8 @@ fn gen_casts(ctx: &mut Ctx) -> Result<String, String> {
     let uh_ok = uh == "{letentry=self.inner.downcast_ref()?;Some(entry.handle())}";
     let ii = squash(find_fn(&file, "CacheEntry", "into_inner")?.block);
     let ii_ok = ii == "{ifletOk(storage)=self.0.downcast(){return(storage.value.into_inner(),storage.id);}wrong_handle_type()}";
+    // a new watcher starts from the entry's CURRENT reload id
+    let watcher_ok = compact_src(&src).contains("fnnew(reload_id:&'aAtomicReloadId)->Self{Self{reload_id,last_reload_id:reload_id.load(),}}");
     // `reloaded_global` (typed and untyped handle): one atomic swap, so that concurrent pollers share one `true` per rewrite
     let rg_expected = "{self.either(||false,|this|this.reload_global.swap(false,Ordering::Acquire),)}";
     let compact_rg: String = src.chars().filter(|c| !c.is_whitespace()).collect();
@@ -464,6 +468,8 @@ fn gen_casts(ctx: &mut Ctx) -> Result<String, String> {
     Ok(format!(
 "/-- `Handle::reloaded_global` and `UntypedHandle::reloaded_global` read and clear the flag in ONE atomic swap -/
 def reloadedGlobalIsAtomicSwap : Bool := {rg_ok}
+/-- `ReloadWatcherInner::new` starts from `reload_id.load()`: a watcher only reports reloads that happen after it was created -/
+def watcherStartsFromCurrentId : Bool := {watcher_ok}
 /-- `UntypedEntry::is::<T>` compares the stored `TypeId` with `TypeId::of::<T>()` -/
 def isComparesTypeId : Bool := {is_ok}
 /-- `new_static` / `new_dynamic` store `TypeId::of::<T>()` of the value they are given -/
